@@ -62,14 +62,33 @@ CHECKS = {
             "fault enumeration: seeded operation histories by 2-3 instances checked against a model of the path's content, then one run per system-call index of the last create/rename (crash) and per file-system call (ENOSPC/EACCES) - exhaustive over crash points of that operation",
             "operations of different instances are atomic w.r.t. each other (the property's own quantifier); rename(2) atomic; pid liveness = kill(pid, 0)",
             "deterministic simulation with exhaustive crash-point enumeration on a simulated file system"),
+    "C04": ("W4-master",
+            "seeded exploration in three families: the real sync/gthread worker process with clients driven into each connection phase and TERM/QUIT/INT at a seeded time or system-call index (W3); the real Arbiter with stub workers that obey/overrun/ignore (W4); the real Arbiter with the real workers and clients end to end",
+            "gevent/eventlet run() loops are not executed (no hub in the simulator): async columns are NOT covered; slack constants are listed in evidence.assumptions",
+            "deterministic simulation with signal injection at seeded delivery points; bounded-liveness and end-state oracles"),
+    "C10": ("W4-master",
+            "seeded exploration of HUP timings against a continuous client stream; kernel-level oracle on the identity and openness of the listening open-file-description, connect() refusals, pool age/size/configuration after the last reload, and per-request completion; stub and real-worker families",
+            "bind unchanged; async worker loops not covered; gthread connections accepted but never read are outside the statement (counted as a probe)",
+            "deterministic simulation of reload histories with kernel-level observation of descriptors"),
+    "C14": ("W4-master",
+            "seeded exploration of orderings of USR2 / TERM / QUIT / WINCH / HUP / kill of either master under client load, TCP and unix binds; the exec'd binary is the same real Arbiter started from the environment the real reexec() built",
+            "execvpe model: non-CLOEXEC descriptors survive, environment replaced; systemd socket activation not in these histories",
+            "deterministic simulation of two-master histories (fork+exec on the simulated kernel) with event-level invariants"),
+    "C18": ("W3-worker",
+            "seeded exploration of max_requests/jitter x sequential and concurrent client load against the real sync/gthread workers (W3) and against the real Arbiter + real workers (W4): counting rule, no accept after the limit, in-flight requests answered, replacement, no refusal",
+            "keep-alive reuse races are not counted as drops; async worker loops not covered",
+            "deterministic simulation with seeded scheduling; oracle over the recorded connection history"),
+    "C20": ("W4-master",
+            "seeded exploration of user/group spellings x initgroups x histories creating worker generations (kill, HUP, USR2, TTIN) with EPERM injected into privilege calls; credentials sampled from the simulated kernel at the first instruction of application loading in every worker",
+            "POSIX credential rules as implemented by the simulated kernel; names resolved against the sandbox's passwd/group files",
+            "deterministic simulation with syscall fault injection; kernel-state oracle at application load"),
 }
 
 NOT_APPLICABLE = [
     {"property_id": "C15", "reason": "pure function of one accepted request and the configuration: no schedule, clock, fault, interleaving or history in the statement (DESIGN.md §5)"},
     {"property_id": "C16", "reason": "pure function of (argv, environment, file contents, defaults) evaluated once at start-up: no concurrency, time, fault or multi-party behaviour (DESIGN.md §5)"},
 ]
-PENDING = {p: "check not built yet (work in progress, see DESIGN.md §11 build order); not claimed until it is"
-           for p in ["C04", "C10", "C14", "C18", "C20"]}   # id -> reason, for properties whose check is not built yet
+PENDING = {}
 
 
 def main():
